@@ -287,3 +287,311 @@ func fromASCII(v ssa.Value, depth int) bool {
 	}
 	return false
 }
+
+// R-PAIRDEFER: acquire/release pairs on runtime-level state whose release has to survive a
+// panic-borne unwind (table confirmed by reading). The release must be registered with defer
+// directly after the acquire (no call in between), in the same function.
+var PairDefer = &core.Rule{Name: "R-PAIRDEFER", Run: runPairDefer,
+	Doc: "for each (acquire, release) pair of the table, every function that calls the acquire registers a deferred call of the release before any other call; additionally a deferred vm.popCtx() in a recovering boundary function runs only if the matching pushCtx() completed (registered after it, or guarded by a flag set after it)"}
+
+type pairSpec struct {
+	acquire, release string // method names (static callee or interface method)
+	why              string
+}
+
+var deferPairs = []pairSpec{
+	{"pushToStringStack", "popFromStringStack", "cycle detection of Array.prototype.join/toLocaleString: an array left on the stack by a throwing element is treated as 'being joined' for the rest of the Runtime's life (join() returns \"\")"},
+	{"Resumed", "Exited", "AsyncContextTracker: the host is promised exactly one Exited per Resumed; an interrupted job must not leave the context active"},
+}
+
+func runPairDefer(p *core.Prog) *core.Result {
+	res := core.NewResult("R-PAIRDEFER", 4)
+	nameOf := func(c *ssa.CallCommon) string {
+		if c.IsInvoke() {
+			return c.Method.Name()
+		}
+		if sc := c.StaticCallee(); sc != nil {
+			return sc.Name()
+		}
+		return ""
+	}
+	for _, spec := range deferPairs {
+		n := 0
+		for _, fn := range p.Funcs {
+			if !p.InModule(fn) || fn.Blocks == nil || fn.Name() == spec.acquire || fn.Name() == spec.release {
+				continue
+			}
+			var acq *ssa.Call
+			core.AllInstrs(fn, func(in ssa.Instruction) {
+				if c, ok := in.(*ssa.Call); ok && acq == nil && nameOf(&c.Call) == spec.acquire {
+					if spec.acquire == "Resumed" && !c.Call.IsInvoke() {
+						return
+					}
+					acq = c
+				}
+			})
+			if acq == nil {
+				continue
+			}
+			n++
+			key := fmt.Sprintf("%s:%s/%s", core.FuncName(fn), spec.acquire, spec.release)
+			var def *ssa.Defer
+			core.AllInstrs(fn, func(in ssa.Instruction) {
+				if d, ok := in.(*ssa.Defer); ok && def == nil && nameOf(&d.Call) == spec.release {
+					def = d
+				}
+			})
+			if def == nil {
+				res.Bad(key, p.Pos(acq.Pos()), fmt.Sprintf("%s() is not released by a deferred %s(): a throw, interrupt or stack overflow raised by the code in between (a Go panic here) skips the release. %s", spec.acquire, spec.release, spec.why))
+				continue
+			}
+			// no call between acquire and the defer on the way (same block order or dominance)
+			bad := false
+			if def.Block() == acq.Block() {
+				after := false
+				for _, in := range acq.Block().Instrs {
+					if in == ssa.Instruction(acq) {
+						after = true
+						continue
+					}
+					if in == ssa.Instruction(def) {
+						break
+					}
+					if _, isCall := in.(*ssa.Call); isCall && after {
+						bad = true
+					}
+				}
+				if !core.InstrDominates(acq, def) {
+					bad = true
+				}
+			} else if !core.InstrDominates(acq, def) {
+				bad = true
+			} else {
+				// blocks strictly between: allow only the branch on the acquire's result
+				for _, in := range def.Block().Instrs {
+					if in == ssa.Instruction(def) {
+						break
+					}
+					if _, isCall := in.(*ssa.Call); isCall {
+						bad = true
+					}
+				}
+			}
+			if bad {
+				res.Bad(key, p.Pos(def.Pos()), fmt.Sprintf("the deferred %s() is registered only after further calls following %s(): a panic in between skips it", spec.release, spec.acquire))
+			} else {
+				res.OK(key, p.Pos(acq.Pos()), "released by a defer registered at "+p.Pos(def.Pos()))
+			}
+		}
+		if n == 0 {
+			res.Unknown("floor:"+spec.acquire, "", "no caller of "+spec.acquire+" found")
+		}
+	}
+	// deferred popCtx in boundary functions
+	popCtx, err := p.GojaMethod("vm", "popCtx")
+	if err != nil {
+		return res.Fail(err)
+	}
+	pushCtx, err := p.GojaMethod("vm", "pushCtx")
+	if err != nil {
+		return res.Fail(err)
+	}
+	for _, fn := range p.Funcs {
+		if !p.InModule(fn) || fn.Blocks == nil {
+			continue
+		}
+		core.AllInstrs(fn, func(in ssa.Instruction) {
+			d, ok := in.(*ssa.Defer)
+			if !ok {
+				return
+			}
+			mc, ok := d.Call.Value.(*ssa.MakeClosure)
+			if !ok {
+				return
+			}
+			cl := mc.Fn.(*ssa.Function)
+			pops := core.CallsIn(cl, popCtx)
+			if len(pops) == 0 {
+				return
+			}
+			key := core.FuncName(fn) + ":deferred popCtx matches a completed pushCtx"
+			pushes := core.CallsIn(fn, pushCtx)
+			if len(pushes) == 0 {
+				res.Inform(key, p.Pos(d.Pos()), "the context is pushed by the caller")
+				return
+			}
+			allAfter := true
+			for _, pc := range pushes {
+				if !core.InstrDominates(pc.(ssa.Instruction), d) {
+					allAfter = false
+				}
+			}
+			if allAfter {
+				res.OK(key, p.Pos(d.Pos()), "the defer is registered after pushCtx() returned")
+				return
+			}
+			// guarded by a captured flag that is set only after a pushCtx
+			guarded := true
+			for _, pc := range pops {
+				g := false
+				for _, cp := range core.ControllingConds(pc.Block()) {
+					ld, ok := cp.Cond.(*ssa.UnOp)
+					if !ok || !cp.Pol {
+						continue
+					}
+					fv, ok := ld.X.(*ssa.FreeVar)
+					if !ok {
+						continue
+					}
+					// the bound cell in the parent
+					var cell ssa.Value
+					for i, f := range cl.FreeVars {
+						if f == fv {
+							cell = mc.Bindings[i]
+						}
+					}
+					if cell == nil {
+						continue
+					}
+					// every store of true into the cell is dominated by a pushCtx call
+					okStores, nTrue := true, 0
+					for _, r := range core.Referrers(cell) {
+						st, ok := r.(*ssa.Store)
+						if !ok || st.Addr != cell {
+							continue
+						}
+						c, isC := st.Val.(*ssa.Const)
+						if isC && c.Value != nil && c.Value.Kind() == constant.Bool && !constant.BoolVal(c.Value) {
+							continue
+						}
+						nTrue++
+						dom := false
+						for _, pu := range pushes {
+							if core.InstrDominates(pu.(ssa.Instruction), st) {
+								dom = true
+							}
+						}
+						if !dom {
+							okStores = false
+						}
+					}
+					if okStores && nTrue > 0 {
+						g = true
+					}
+				}
+				if !g {
+					guarded = false
+				}
+			}
+			if guarded {
+				res.OK(key, p.Pos(d.Pos()), "popCtx() in the deferred function is guarded by a flag that is set only after pushCtx() returned")
+			} else {
+				res.Bad(key, p.Pos(d.Pos()), "the deferred function pops a context unconditionally although it is registered before pushCtx(), which throws StackOverflowError at the call-depth limit: the frame of the calling native function is popped instead, control falls out of the calling script function and the stack pointer is left off by two")
+			}
+		})
+	}
+	return res
+}
+
+// R-EXITAGREE: leaving the Runtime at the outermost boundary after an uncatchable condition must
+// reset at least the vm/Runtime state that the normal exit path resets (sibling agreement of the two
+// exits of RunProgram: tail + leave() versus leaveAbrupt()).
+var ExitAgree = &core.Rule{Name: "R-EXITAGREE", Run: runExitAgree,
+	Doc: "field-set agreement: every vm/Runtime field that the normal outermost exit of RunProgram (its non-recursive tail and leave()) resets to a constant is also written by leaveAbrupt() or its static callees"}
+
+func runExitAgree(p *core.Prog) *core.Result {
+	res := core.NewResult("R-EXITAGREE", 3)
+	runProgram, err := p.GojaMethod("Runtime", "RunProgram")
+	if err != nil {
+		return res.Fail(err)
+	}
+	leave, err := p.GojaMethod("Runtime", "leave")
+	if err != nil {
+		return res.Fail(err)
+	}
+	leaveAbrupt, err := p.GojaMethod("Runtime", "leaveAbrupt")
+	if err != nil {
+		return res.Fail(err)
+	}
+	vmT, err := p.GojaType("vm")
+	if err != nil {
+		return res.Fail(err)
+	}
+	rtT, err := p.GojaType("Runtime")
+	if err != nil {
+		return res.Fail(err)
+	}
+	ownerOK := func(fa *ssa.FieldAddr) bool {
+		n := core.NamedOf(fa.X.Type())
+		return n == vmT || n == rtT
+	}
+	type fw struct {
+		f   *types.Var
+		pos string
+	}
+	constStores := func(fn *ssa.Function, only func(*ssa.BasicBlock) bool, anyValue bool, depth int) []fw {
+		var out []fw
+		var visit func(f *ssa.Function, d int, filter func(*ssa.BasicBlock) bool)
+		visit = func(f *ssa.Function, d int, filter func(*ssa.BasicBlock) bool) {
+			core.AllInstrs(f, func(in ssa.Instruction) {
+				if filter != nil && !filter(in.Block()) {
+					return
+				}
+				switch x := in.(type) {
+				case *ssa.Store:
+					fa, ok := x.Addr.(*ssa.FieldAddr)
+					if !ok || !ownerOK(fa) {
+						return
+					}
+					if _, isConst := x.Val.(*ssa.Const); isConst || anyValue {
+						out = append(out, fw{core.FieldOf(fa), p.Pos(x.Pos())})
+					}
+				case *ssa.Call:
+					if d < depth {
+						if sc := x.Call.StaticCallee(); sc != nil && p.InModule(sc) && sc.Signature.Recv() != nil {
+							if n := core.NamedOf(sc.Signature.Recv().Type()); n == vmT || n == rtT {
+								visit(sc, d+1, nil)
+							}
+						}
+					}
+					// atomic stores on a field address
+					if sc := x.Call.StaticCallee(); sc != nil && sc.Pkg != nil && sc.Pkg.Pkg.Path() == "sync/atomic" && len(x.Call.Args) > 0 {
+						if fa, ok := x.Call.Args[0].(*ssa.FieldAddr); ok && ownerOK(fa) {
+							out = append(out, fw{core.FieldOf(fa), p.Pos(x.Pos())})
+						}
+					}
+				}
+			})
+		}
+		visit(fn, 0, only)
+		return out
+	}
+	// the non-recursive tail of RunProgram: blocks that contain / are dominated by the call of leave()
+	var leaveCall *ssa.Call
+	for _, c := range core.CallsIn(runProgram, leave) {
+		leaveCall, _ = c.(*ssa.Call)
+	}
+	if leaveCall == nil {
+		return res.Failf("unresolved anchor: RunProgram does not call leave()")
+	}
+	normal := constStores(runProgram, func(b *ssa.BasicBlock) bool { return b == leaveCall.Block() }, false, 0)
+	normal = append(normal, constStores(leave, nil, false, 0)...)
+	abrupt := map[*types.Var]bool{}
+	for _, w := range constStores(leaveAbrupt, nil, true, 2) {
+		abrupt[w.f] = true
+	}
+	seen := map[*types.Var]bool{}
+	for _, w := range normal {
+		if seen[w.f] {
+			continue
+		}
+		seen[w.f] = true
+		key := "leaveAbrupt:resets " + w.f.Name()
+		if abrupt[w.f] {
+			res.OK(key, w.pos, "also reset on the abrupt exit")
+		} else {
+			res.Bad(key, w.pos, fmt.Sprintf("the normal outermost exit resets %s (%s) but leaveAbrupt() does not: after an interrupt or stack overflow ends a top-level run the idle Runtime keeps the value (e.g. a stale vm.prg shows up as a phantom frame in every later stack trace taken from a Go-called function)", w.f.Name(), w.pos))
+		}
+	}
+	return res
+}
